@@ -10,6 +10,7 @@ package watcher
 //@ func WatchFileForUpdates
 //@ prop C20 C08
 //@ at call Add assert[watches-the-configured-path-as-cleaned] arg(Add, 1) == filepath.Clean(filename)
+//@ ensures[a-watch-that-could-not-be-set-up-is-an-error] (called(Add) && ret(Add) != nil ==> ret0 != nil) && (ret0 == nil ==> called(Add) && ret(Add) == nil)
 
 //@ func WatchFileForUpdates$1
 //@ prop C20 C08
@@ -28,3 +29,4 @@ package watcher
 //@ func WaitForReplacement
 //@ prop C20 C08
 //@ at call Add assert[re-watches-the-same-path] arg(Add, 1) == filename && arg(Add, 0) == watcher && ret1(os.Stat) == nil && arg(os.Stat, 0) == filename
+//@ ensures[returns-only-after-the-watch-is-re-established] called(Add) && ret(Add) == nil
